@@ -11,7 +11,7 @@ Driver handler for C20.  Case kinds (see harness/run/c20.go):
       obs: ok <k:v list> | err open | err emit
   rdbad <arr|obj> <dochex>                 hand-made (malformed or foreign) document
   lazy <alone|field> <v:hex|empty|err|nullv|raw:hex>
-      obs: m=<hex|err|panic> um=<ok|err|-> get=<ok:hex|empty|err|panic|->
+      obs: m=<hex|err|-> um=<ok|err|-> opt=<some:hex|none|err|panic|-> get=<ok:hex|empty|err|panic|->
   file <fwd|rev> <lf|crlf> <nl|nonl> <runs>  runs := "-" | L<len>[x<count>] …   (line i = content(i,len))
   raw <fwd|rev> <hex|->                      small file given literally
   missing <fwd|rev>
@@ -98,7 +98,7 @@ def handleArr (helper : String) (initOk : Bool) (elems : List (Option Bytes)) (o
   -- bytes = "[" e1 "," e2 … "]" (computed on the hex text), init ran once, read-back = the elements
   if elems.all Option.isSome && initOk then
     let es := elems.filterMap id
-    let wantOut := "5b" ++ ",".intercalate [] ++ "2c".intercalate (es.map hexOfBytes) ++ "5d"
+    let wantOut := "5b" ++ "2c".intercalate (es.map hexOfBytes) ++ "5d"
     let wantInit := if helper == "wi" then "1" else "-"
     let want := s!"out={wantOut} init={wantInit} werr=nil back=ok:{hexList es}"
     (model, obs == want, if obs == want then "" else s!"want {want}")
@@ -157,35 +157,44 @@ def holderPost : Bytes := ",\"z\":\"x\"}".toUTF8.toList
 def loutStr : JsonFrame.LOut Bytes → String
   | .ok v => "ok:" ++ hexOfBytes v | .err => "err" | .emptyErr => "empty" | .panic => "panic"
 
+def optStr : JsonFrame.LOut (Option Bytes) → String
+  | .ok (some v) => "some:" ++ hexOfBytes v | .ok none => "none" | .err => "err" | .emptyErr => "empty" | .panic => "panic"
+
 def handleLazy (mode src : String) (obs : String) : String × Bool × String :=
   let enc : Bytes → Option Bytes := some
   let dec : Bytes → Option Bytes := some
-  let zero : JsonFrame.Lazy Bytes := { fetcher := .nilFn }
-  let finish (m : String) (data : Bytes) (want : Option String) : String × Bool × String :=
-    -- unmarshal into a zero Lazy (a fresh variable / a fresh struct field), then Get
+  -- the zero value: what a fresh variable / a fresh struct field holds before UnmarshalJSON runs
+  let zero : JsonFrame.Lazy Bytes := { fetcher := .nilFn, emptySup := false }
+  let mk (f : JsonFrame.Fetcher Bytes) : JsonFrame.Lazy Bytes := { fetcher := f, emptySup := true }
+  -- `want` = the value the round trip must preserve (`some none` = empty)
+  let finish (m : String) (data : Bytes) (want : Option (Option Bytes)) : String × Bool × String :=
     let (l2, ok) := JsonFrame.Lazy.unmarshal dec zero data
-    let model := s!"m={m} um={if ok then "ok" else "err"} get={loutStr l2.get}"
+    let model := s!"m={m} um={if ok then "ok" else "err"} opt={optStr l2.getOptional} get={loutStr l2.get}"
     match want with
-    | some g =>
-      let good := obs == s!"m={m} um=ok get={g}"
-      (model, good, if good then "" else s!"want m={m} um=ok get={g}")
+    | some w =>
+      let wantS := match w with
+        | some v => s!"m={m} um=ok opt=some:{hexOfBytes v} get=ok:{hexOfBytes v}"
+        | none => s!"m={m} um=ok opt=none get=empty"
+      let good := obs == wantS
+      (model, good, if good then "" else s!"want {wantS}")
     | none => (model, true, "n/a")
   let wrap (b : Bytes) : Bytes := if mode == "field" then holderPre ++ b ++ holderPost else b
-  let fromLazy (l : JsonFrame.Lazy Bytes) (want : Option String) : String × Bool × String :=
+  let failS := "m=err um=- opt=- get=-"
+  let fromLazy (l : JsonFrame.Lazy Bytes) (want : Option (Option Bytes)) : String × Bool × String :=
     match JsonFrame.Lazy.marshal enc l with
     | .ok b => finish (hexOfBytes (wrap b)) b want
-    | .err => ("m=err um=- get=-", obs == "m=err um=- get=-", "a failing fetcher must fail the marshalling")
-    | _ => ("m=panic um=- get=-", true, "n/a")
-  if src == "empty" then fromLazy { fetcher := .gives none } (some "empty")
-  else if src == "err" then fromLazy { fetcher := .fails } none |> fun (m, _, _) => (m, obs == m, "a failing fetcher must fail the marshalling")
-  else if src == "nullv" then fromLazy { fetcher := .gives (some JsonFrame.nullLit) } none
+    | .err => (failS, obs == failS, if obs == failS then "" else "a failing fetcher must fail the marshalling")
+    | _ => ("m=panic um=- opt=- get=-", true, "n/a")
+  if src == "empty" then fromLazy (mk (.gives none)) (some none)
+  else if src == "err" then fromLazy (mk .fails) none
+  else if src == "nullv" then fromLazy (mk (.gives (some JsonFrame.nullLit))) none
   else if src.startsWith "v:" then
     match unhex (src.drop 2).toString with
-    | some v => fromLazy { fetcher := .gives (some v) } (if v = JsonFrame.nullLit then none else some ("ok:" ++ hexOfBytes v))
+    | some v => fromLazy (mk (.gives (some v))) (if v = JsonFrame.nullLit then none else some (some v))
     | none => ("bad-case", false, "unparsable case")
   else if src.startsWith "raw:" then
     match unhex (src.drop 4).toString with
-    | some d => finish "-" d (some (if d = JsonFrame.nullLit then "empty" else "ok:" ++ hexOfBytes d))
+    | some d => finish "-" d (some (if d = JsonFrame.nullLit then none else some d))
     | none => ("bad-case", false, "unparsable case")
   else ("bad-case", false, "unparsable case")
 
